@@ -34,14 +34,18 @@ def run(c):
         "address.SelectIDNA / dns.SelectIDNA (x/net/idna, x/text NFC) are parameters of the model (Idna); each run ships the table of their real results for the strings of the case",
         "C18_lists_exactly_failed_under_original_addresses assumes RecordsRoot (the rewrite map names the sender's address directly): proved to be what ONE pipeline level produces (C18_one_pipeline_records_root); two nested levels violate it (C18_two_level_rewriting_counterexample, KF-C18-1)",
         "byte-level well-formedness of the MIME serialisation (go-message multipart writer, header folding) is not modelled: established per generated report by an independent stdlib parse (sampling) — C18_report_structure_partial is the proved part",
-        "Queue.deliver (who fails with which error) is C01's subject; here the per-recipient errors of an attempt are an arbitrary function",
+        "the theorems about attempt/emitDSN hold for an ARBITRARY per-recipient error function of the attempt; which error value Queue.deliver attributes to whom is mirrored by deliverErrs (Start / RCPT / DATA or per-recipient status / Commit), proved to have the classes of C01's deliver (deliverErrs_cls) and driven against the real queue with a scripted target failing at every stage",
+        "msgpipeline.AddRcpt is outside the anchors: its recording of OriginalRcpts (three modifier stages, 1-to-N, nested pipelines) is the model's Rules/frontSteps/recordAll, tied by running the REAL pipeline(s) in front of the real queue; the scripted part is the modifier's rewrite table only",
     ]
     return c.finish(
         rule="(gen) dsn.GenerateDSN called directly on generated envelopes / reporting-MTA data / 0-4 recipient records (valid and invalid: empty or unconvertible addresses and host names, "
         "missing action, zero status class, *smtp.SMTPError / other / nil diagnostics, multi-line, non-ASCII, long and whitespace-heavy texts), both flavours, 11 original headers; "
-        "(q) the REAL queue (spool, time wheel, 1-3 attempts, JSON round trip of the metadata between attempts) on a scripted target failing 1-4 recipients per attempt with error values "
-        "generated from maddy's wrapping primitives (88% coherent, incl. annotations without enhanced code), senders null / rewritten / IDN / EAI, recipients rewritten 0-3 levels incl. sibling "
-        "chains, ASCII / upper-case / A-label / U-label / quoted / long / EAI spellings, HELO names incl. unconvertible ones, bounce pipeline failing at Start / AddRcpt / Body / Commit; "
+        "(q) the REAL queue (spool, time wheel, 1-3 attempts, JSON round trip of the metadata between attempts) behind — in 60% of the cases — a REAL msgpipeline.MsgPipeline built by msgpipeline.New "
+        "(global / per-source / per-destination rewriting modifiers, aliases expanding 1-to-3, optionally a nested reroute pipeline; the rewritten recipients anywhere in the transaction, the sender "
+        "rewritten by the pipeline) or handed to Queue.Start directly with a prepared OriginalRcpts (0-3 levels), on a scripted atomic or PartialDelivery target answering every stage: Start refused, "
+        "1-6 recipients refused at RCPT, the message then refused at DATA (or per accepted recipient) or at Commit, error values "
+        "generated from maddy's wrapping primitives (88% coherent, incl. annotations without enhanced code), senders null / rewritten / IDN / EAI, recipients incl. sibling "
+        "chains, several failed members of one alias, two spellings of one mailbox differing in case, ASCII / upper-case / A-label / U-label / quoted / long / EAI spellings, HELO names incl. unconvertible ones, bounce pipeline failing at Start / AddRcpt / Body / Commit; "
         "every report is serialised, parsed with net/mail + mime/multipart + net/textproto, rendered canonically and compared with the Lean model's report, the whole bounce-call trace "
         "and retry sets included; (loop) two real queues that are each other's bounce route with targets refusing everything; distinct = distinct op lines",
         explanation="theorems over all recipient lists, error values, rewrite maps, namings, IDNA behaviours and failing stages; model tied to queue.go/dsn.go by differential runs through the real queue "
